@@ -54,14 +54,46 @@ def q(v: str) -> str:
     return v
 
 
+def row_order_mode(atoms) -> str:
+    """the order of the rows of the atom_site loop has no meaning in mmCIF: besides model by model (as PDB files list
+    them) an ensemble is written with the polymer atoms of all models first and the hetero atoms after them, or with
+    the models interleaved residue by residue. A function of the atoms, so that every writer call of a case agrees."""
+    if len({a["model"] for a in atoms}) < 2:
+        return "single-model"
+    return ("model-by-model", "polymer-first", "models-interleaved")[(len(atoms) + int(atoms[0]["serial"])) % 3]
+
+
+def cif_row_order(atoms):
+    """the atoms in the order their rows are written; the relative order inside each model is kept"""
+    mode = row_order_mode(atoms)
+    if mode == "polymer-first":
+        return [a for a in atoms if not a["het"]] + [a for a in atoms if a["het"]]
+    if mode == "models-interleaved":
+        per = {}
+        for a in atoms:
+            per.setdefault(a["model"], []).append(a)
+        keyed = []
+        for mi, (m, lst) in enumerate(per.items()):
+            ri, prev = -1, None
+            for k, a in enumerate(lst):
+                rk = (a["chain"], a["resseq"], a["ins"], a["resn"])
+                if rk != prev:
+                    ri, prev = ri + 1, rk
+                keyed.append((ri, mi, k, a))
+        keyed.sort(key=lambda t: t[:3])
+        return [t[3] for t in keyed]
+    return list(atoms)
+
+
 def write_cif(atoms, label_differs=False) -> str:
     rows = []
-    for a in atoms:
+    n_all, serial0 = len(atoms), atoms[0]["serial"]
+    for a in cif_row_order(atoms):
         label_asym = a["chain"]
         if label_differs and a["het"]:
             # label_asym_id of a hetero group is whatever the depositor's software assigned: it varies from
             # entry to entry and may coincide with the author chain of a polymer in another entry
-            k = (len(atoms) + atoms[0]["serial"] + "ABCDEFGH".find(a["chain"])) % 5
+            k = (n_all + serial0 + "ABCDEFGH".find(a["chain"])) % 5
             label_asym = ["B", "C", "D", "E", "A"][k]
             if label_asym == a["chain"]:
                 label_asym = "Z"
@@ -402,6 +434,7 @@ def features_of(atoms, label_differs):
         f.add("coord-8-chars")
     if len({a["model"] for a in atoms}) > 1:
         f.add("multi-model")
+        f.add("cif-rows:" + row_order_mode(atoms))
     if label_differs:
         f.add("label!=auth chain")
     if any(a["serial"] >= 10000 for a in atoms):
